@@ -292,6 +292,13 @@ def route_params(name):
     return [base, alt]
 
 
+def _same_value(a, b):
+    try:
+        return list(a) == list(b)
+    except TypeError:
+        return a == b
+
+
 def run_routes(job, ob):
     from mdpax.problems.forest import Forest, ForestConfig
     from mdpax.problems.perishable_inventory.de_moor_single_product import DeMoorSingleProductPerishable as DM, DeMoorSingleProductPerishableConfig as DMC
@@ -299,9 +306,16 @@ def run_routes(job, ob):
     cls = kit.solver_class(name)
     base = tempfile.mkdtemp(prefix="mdpv-routes-")
     try:
+        from mdpax.problems.perishable_inventory.hendrix_two_product import HendrixTwoProductPerishable as HX, HendrixTwoProductPerishableConfig as HXC
+        from mdpax.problems.perishable_inventory.mirjalili_platelet import MirjaliliPlateletPerishable as MJ, MirjaliliPlateletPerishableConfig as MJC
+        problems = [("forest", Forest, ForestConfig, dict(S=4, r1=3.0, p=0.2)),
+                    ("de_moor", DM, DMC, dict(max_demand=3, max_useful_life=2, lead_time=1, max_order_quantity=2, issue_policy="fifo"))]
+        # the other two shipped problems (tuple-valued parameters that pass through YAML / Hydra), first parameter set only
+        more = [("hendrix", HX, HXC, dict(max_useful_life=1, max_order_quantity_a=2, max_order_quantity_b=1, demand_poisson_mean_a=1.0, demand_poisson_mean_b=0.6)),
+                ("mirjalili", MJ, MJC, dict(max_demand=2, max_useful_life=2, max_order_quantity=1, useful_life_at_arrival_distribution_c_0=(0.75,),
+                                            useful_life_at_arrival_distribution_c_1=(0.125,), weekday_demand_negbin_n=(3.5, 11.0, 7.2, 11.1, 5.9, 5.5, 2.2)))]
         for pi_, params in enumerate(route_params(name)):
-            for pname, P, PC, pkw in (("forest", Forest, ForestConfig, dict(S=4, r1=3.0, p=0.2)),
-                                      ("de_moor", DM, DMC, dict(max_demand=3, max_useful_life=2, lead_time=1, max_order_quantity=2, issue_policy="fifo"))):
+            for pname, P, PC, pkw in (problems + more if pi_ == 0 else problems):
                 res = {}
                 errs = {}
                 for route in ("instance+kwargs", "config-only", "reloaded"):
@@ -331,7 +345,7 @@ def run_routes(job, ob):
                         if route == "instance+kwargs":
                             continue
                         same = (float(s.gamma) == float(ref.gamma) and s.epsilon == ref.epsilon and s.max_batch_size == ref.max_batch_size and
-                                type(s.problem) is type(ref.problem) and all(getattr(s.problem.config, k) == v for k, v in pkw.items()) and
+                                type(s.problem) is type(ref.problem) and all(_same_value(getattr(s.problem.config, k), v) for k, v in pkw.items()) and
                                 float(s.conv_threshold) == float(ref.conv_threshold) and
                                 all(getattr(s.config, k) == getattr(ref.config, k) for k in params))
                         ob.prove(f"route-equivalent-config[{route},{pname},{pi_}]", [], bool(same), cex=cex, kind="routes yield identically configured solvers")
